@@ -3,7 +3,7 @@ import LyModel.Diff.LemmasDiff
 # Sibling identity (`kkey`) and the canonical order (C06 proofs)
 
 `kkey S n` is what identifies `n` among its siblings for `lyd_compare_single`: the schema node, plus the value of a
-leaf-list instance / the key values of a list instance.  `matchP` (Order.lean) is equality of `kkey`; the strict order
+leaf-list instance / the key values of a list instance.  `matchK` (Order.lean) is equality of `kkey`; the strict order
 `klt` depends on the nodes only through `kkey`.  Core Lean only.
 -/
 namespace LyModel.Diff
@@ -53,9 +53,9 @@ theorem nkeys_ne_zero (S : Schema) (sid : Nat) (hl : S.isKind sid .list = true) 
     simp [h0] at this
 
 /-- `lyd_compare_single` on the fragment is equality of `kkey` -/
-theorem matchP_iff_kkey (S : Schema) (t x : DNode) (hd : S.isDupInst t.sid = false) :
-    matchP S t x = true ↔ kkey S x = kkey S t := by
-  unfold matchP kkey
+theorem matchK_iff_kkey (S : Schema) (t x : DNode) (hd : S.isDupInst t.sid = false) :
+    matchK S t x = true ↔ kkey S x = kkey S t := by
+  unfold matchK kkey
   by_cases hll : S.isKind t.sid .leaflist = true
   · -- leaf-list: schema node and value
     have hk : S.kind? t.sid = some .leaflist := by simpa [Schema.isKind] using hll
